@@ -605,7 +605,15 @@ func (x *c17Run) updateSel(pre *types.AppState, slotsOf func(*types.Candidate) (
 								hadStake = true
 							}
 						}
-						if incoming && !hadStake {
+						// (with several incoming delegations in one recalculation a newcomer that got in can itself be the
+						// smallest for a later, larger one: only the case without such a rival is decided here)
+						rival := false
+						for _, u := range us {
+							if u.Coin == 0 && u.Owner != k.Address && bi(u.Value).Cmp(bi(k.Amount)) >= 0 {
+								rival = true
+							}
+						}
+						if incoming && !hadStake && !rival {
 							for _, st := range pc.Stakes {
 								if st.Coin != 0 || bi(st.Value).Cmp(minStay) != 0 {
 									continue
